@@ -50,6 +50,19 @@ Find a defect of yet ANOTHER kind. Directions still open:
 - TEXT FORMATS (parsers/writers only): tokens separated by several blanks or tabs, a sign or exponent form of a number (+1, 1., .5, 1e+3, 1D3), a trailing comment, upper/lower case of a keyword, Windows line ends, a final line without newline, negative zero in a file.
 The change must still be a plausible developer slip / refactoring / optimisation that a reviewer could wave through (no `if input == magic`). Your demonstration test must construct the trigger deterministically and show the property's statement being violated.
 '''
+HARD5 = '''
+## HARD MODE, ROUND 5 (read carefully)
+Four rounds of seeded changes have been collected and the oracle under evaluation — a runtime monitor that drives the public API with hundreds of thousands of generated inputs, histories and SDK pipelines per property and compares with an independent exact model — catches essentially all of them. Do not repeat their kinds: size thresholds; huge ids / endpoints; ties, adjacent doubles, infinities, NaN; below-epsilon coefficients; values on a bound or tolerance; stored order; repeated ids; absent fields and proto3 defaults; empty / constant / degenerate shapes; relax-restore, penalty-instantiate, log-encode-substitute histories; echoing fixed variables; error paths that must change nothing; tags, paths and names; alternative operator / conversion / loader entry points; file names; tolerance constants; casts; one-ulp ends; overflowing constraint values; partial sums; text-layout details.
+This round, start from the CODE rather than from the statement: read the functions named in the anchors (and the helpers they call) and look for the classic slip that THIS code structure invites, then check that it really breaks the statement for some input. Typical patterns:
+- an error that gets swallowed (`.ok()`, `unwrap_or_default()`, `if let Ok(..)`, `filter_map` dropping failures) so that a bad input yields a plausible result instead of an error, or a good input silently loses a piece;
+- `zip` / `take` / `chunks` / `windows` truncating the longer side; `enumerate` index used after a `filter`; an index into the wrong of two parallel vectors;
+- `insert` overwriting where accumulation was meant (or `entry().or_insert` keeping a stale value); `extend` vs replace; a missing `clear()`; a duplicated `push`; `dedup` without the `sort` it needs; `retain` with the predicate inverted for one branch only;
+- `continue` vs `break` vs early `return` inside a loop over several items; a flag set in the loop and never reset; the first / last element handled outside the loop and then again inside;
+- shadowing: the refactored inner variable has the same name as the outer one it was supposed to update; a clone taken before the mutation it was supposed to see; two mutable passes where the second reads what the first already changed;
+- wrapping / saturating / checked arithmetic chosen wrongly for ids and counts; `min`/`max` swapped; `<`/`<=` on one side of a two-sided test; sign of a term when moving it across an (in)equality;
+- a helper reused for a second purpose with slightly different needs (sorted vs unsorted input, with vs without the constant term, active vs removed constraints, decision variables vs parameters).
+The change must read like a plausible refactoring / optimisation / clean-up of that code and keep the 102 tests green. Your demonstration test must construct the trigger deterministically and show the property's statement being violated.
+'''
 os.makedirs('/tmp/seedwork', exist_ok=True)
 BENIGN = """You are a careful Rust engineer helping to evaluate a test oracle for FALSE ALARMS. The oracle is a runtime monitor that drives the public API of the OMMX Rust SDK with many generated inputs and checks ONE stated semantic property. A good oracle must stay silent on any code change that keeps the property true. Your job: produce realistic BEHAVIOUR-PRESERVING CHANGES ("benign refactorings") of the code the property is anchored in — changes after which the property STILL HOLDS for every input, but which alter as much as possible of what the property does NOT promise.
 
@@ -110,7 +123,7 @@ for pid, p in props.items():
         continue
     text = json.dumps({k: p[k] for k in ['id', 'title', 'statement', 'quantifier', 'why_tests_cant', 'anchors']}, indent=1)
     wt, out, demo = f'/tmp/seed{R}-{pid}', f'/tmp/seed{R}-{pid}-out', f'seeded_demo{R}_{pid.lower()}'
-    hard = {1: '', 2: HARD2, 3: HARD3, 4: HARD4}[rnd]
+    hard = {1: '', 2: HARD2, 3: HARD3, 4: HARD4, 5: HARD5}[rnd]
     prompt = f'''You are a careful Rust engineer helping to evaluate how well a test oracle detects regressions. Your job: produce realistic BREAKING CHANGES ("seeded defects") to the OMMX Rust SDK that violate ONE stated semantic property while still compiling and passing the project's existing test suite.
 
 ## Your workspace
